@@ -517,7 +517,7 @@ def _backward(db, chk, cs, cg, rule="C13.R4-backward-attachment"):
     h = cg.func("CallGraph._link_main_and_bwd_stacks")
     calls = [c for c in walk_no_nested(h) if isinstance(c, ast.Call) and isinstance(c.func, ast.Attribute) and c.func.attr == "update_parent_of_first_layer_nodes"]
     hp = [p_ for p_ in H.param_names(h) if p_ != "self"]
-    chk.ob(rule, "every chosen annotation event becomes the candidate parent of the autograd thread's top-level operators", len(calls) == 1 and len(hp) >= 2 and ast.unparse(calls[0].func.value) == hp[1], cg.loc(h),
+    chk.ob(rule, "every chosen annotation event becomes the candidate parent of the autograd thread's top-level operators", (len(calls) == 1 and len(hp) >= 2 and ast.unparse(calls[0].func.value) == hp[1]) if calls else None, cg.loc(h),
            found=[ast.unparse(c) for c in calls], accepted="bwd_stack.update_parent_of_first_layer_nodes(idx)")
     # containment test
     u = cs.func("CallStackGraph.update_parent_of_first_layer_nodes")
